@@ -302,6 +302,9 @@ fn signature(target: &Op, call: &str) -> String {
 pub fn worker_pairs(global_seed: u64, from: u64, to: u64, scratch: &Path, shim: &Shim, max_steps: usize) -> FaultSummary {
     let mut sum = FaultSummary::default();
     for j in from..to {
+        if sum.violations.len() >= 3 {
+            break;
+        }
         let seed = run_seed(global_seed, "e1-fault", j);
         let (mut history, _sw) = generate::gen_history(seed, Class::Mixed, max_steps);
         let Some(target) = pick_target(&history) else {
